@@ -374,7 +374,16 @@ fn o_c06(h: &Hist) -> Vec<Viol> {
     oracle::c06(&Index::new(h))
 }
 fn o_c10(h: &Hist) -> Vec<Viol> {
-    oracle::c10(&Index::new(h))
+    let ix = Index::new(h);
+    let mut out = oracle::c10(&ix);
+    // "as seen through current_local_parent()": inside every scope, the polls of an in_span
+    // future included, the context is that of the innermost local parent
+    out.extend(oracle::c11(&ix).into_iter().filter(|x| x.sig.starts_with("current_local_parent")).map(|mut x| {
+        x.prop = "C10";
+        x.sig = format!("inside-scope:{}", x.sig);
+        x
+    }));
+    out
 }
 fn o_c11(h: &Hist) -> Vec<Viol> {
     oracle::c11(&Index::new(h))
@@ -794,6 +803,8 @@ pub fn spec(id: &str, variant: &str, cancelable: bool, thorough: bool) -> Option
             profile: big(Profile {
                 threads: (1, 2),
                 ops: (0, 40),
+                p_sampled: 0.75,
+                adapter_kinds: vec![AdapterKind::InSpan, AdapterKind::InSpanEnterOnPoll],
                 ..base.clone().set(&[
                     (K::Churn, 3),
                     (K::Burst, 2),
@@ -808,6 +819,11 @@ pub fn spec(id: &str, variant: &str, cancelable: bool, thorough: bool) -> Option
                     (K::Root, 8),
                     (K::Child, 6),
                     (K::Nest, 0),
+                    // scopes opened by polling an in_span future (bound to sampled and unsampled
+                    // spans), and the context asked for inside every kind of scope
+                    (K::Wrap, 3),
+                    (K::Drive, 8),
+                    (K::CtxOfLocal, 6),
                 ])
             }),
             opts: ExecOpts {
